@@ -1,8 +1,12 @@
 import Cfdm.Lemmas.MaskApply
+import Cfdm.Lemmas.MaskData
+import Cfdm.Model.MaskDType
+import Cfdm.Generated.NumpyPromotion
 /-
 C07 — masking and unpacking of file data follow the netCDF conventions.
-Property theorems only.  Model: Cfdm/Model/Mask.lean (mirrors the code after the four
-proposed patches in fixes/C07-*.patch; the repository behaviour is kept as `…Old`).
+Property theorems only.  Model: Cfdm/Model/Mask.lean (masks, values; mirrors /repo HEAD
+plus fixes/C07-apply-masking-vector-missing-value.patch; earlier behaviour is kept as
+`…Old`) and Cfdm/Model/MaskDType.lean (data types of unpacked data; theorems in section 7).
 -/
 namespace Cfdm.Props.C07
 open Cfdm.Mask
@@ -151,14 +155,16 @@ Full-strength statement (the property as written):
 and the same for every metadata construct and its bounds.  It is FALSE for the code; each
 way it fails is witnessed below and recorded as a known finding:
   attributes not safely castable (the read ignores them, `apply_masking` applies them);
-  vector `missing_value`; `valid_range` together with `valid_min`/`valid_max` or of the
+  `valid_range` together with `valid_min`/`valid_max` or of the
   wrong size (the read gives `valid_range` precedence / ignores it, `apply_masking` raises);
   valid-range attributes on character data; data transformed by the read (unpacked or
   re-viewed as unsigned) while the attributes stay in packed space; bounds inheriting the
   parent's attributes in `apply_masking` only.
-`ApplyOK` / `BoundsOK` are exactly the negation of that list.  NaN fill values and the
-`inplace=False` copy are NOT excluded: the model is the patched code; the repository code
-fails there (`…_old_…_counterexample`). -/
+`ApplyOK` / `BoundsOK` are exactly the negation of that list.  NaN fill values, the
+`inplace=False` copy and vector-valued `missing_value` are NOT excluded: the first two were
+repaired in /repo (f62b33c, ebd1f5d; `…_old_…_counterexample` keep the earlier code), the
+third is repaired by fixes/C07-apply-masking-vector-missing-value.patch (HEAD without it:
+`C07_old_vector_missing_value_counterexample`). -/
 
 /-- One variable: under `ApplyOK`, `PropertiesData.apply_masking` on the data read with
 `mask=False` gives the elements of the masked read. -/
@@ -173,6 +179,12 @@ example : ApplyOK ⟨.float, 32⟩ { fillValue := some (.vals .nan []), validMin
 example : propsApplyMasking (readerProps ⟨.float, 32⟩ { fillValue := some (.vals .nan []), validMin := some (.vals (.num 0) []) })
     (read ⟨.float, 32⟩ { fillValue := some (.vals .nan []), validMin := some (.vals (.num 0) []) } false true
       [.nan, .num (-1), .num 4]).elems = .ok [none, none, some (.num 4)] := by decide
+
+/-- non-vacuity with a vector `missing_value` -/
+example : ApplyOK ⟨.int, 8⟩ { missingValue := some (.vals (.num 1) [.num 2]) } false = true
+    ∧ propsApplyMasking (readerProps ⟨.int, 8⟩ { missingValue := some (.vals (.num 1) [.num 2]) })
+        (read ⟨.int, 8⟩ { missingValue := some (.vals (.num 1) [.num 2]) } false false
+          [.num 1, .num 2, .num 3, .num (-127)]).elems = .ok [none, none, some (.num 3), none] := by decide
 
 /-- The field and all its metadata constructs (with bounds): `Field.apply_masking` after
 `cfdm.read(mask=False)` returns the state of the masked read, in place or as a copy, and
@@ -196,9 +208,51 @@ example : VarOK true ⟨⟨.int, 16⟩, { missingValue := some (.vals (.num 7) [
         some ⟨⟨.float, 64⟩, { validMin := some (.vals (.num 15) []) }, [.num 5, .num 15, .num 15, .num 25]⟩⟩ = true := by
   decide
 
-/-! ## 6. Witnesses: the repository code, and the excluded points -/
+/-! ### The default `_FillValue` bookkeeping of bounds
 
-/-- Repository `Data.apply_masking` (`array == fill_value`): a NaN `_FillValue` masks
+`PropertiesDataBounds.apply_masking` takes every masking property of the bounds and falls
+back on the parent's when the bounds have none.  For `_FillValue` the fall-back must never
+happen after a `mask=False` read: the reader's `_set_default_FillValue` records, on the
+bounds variable too, the default fill value OF THE BOUNDS' OWN TYPE - which is what the
+masked read uses.  (`BoundsOK` therefore says nothing about `_FillValue`, and the bounds may
+have another data type than their parent.) -/
+
+/-- After a `mask=False` read the bounds always carry a `_FillValue` of their own - the
+attribute, or their own type's default - so `apply_masking` never uses the parent's,
+whatever the parent's `_FillValue` and type are. -/
+theorem C07_bounds_fill_value_never_inherited (bdt cdt : DType) (b c : Attrs) :
+    (inheritProps (readerProps bdt b) (readerProps cdt c)).fillValue = (readerProps bdt b).fillValue
+    ∧ (readerProps bdt b).fillValue = some (match b.fillValue with
+        | some x => x
+        | none => .vals (defaultFill bdt) []) := by
+  simp only [inheritProps, readerProps]
+  cases b.fillValue <;> simp
+
+/-- non-vacuity: uint16 bounds without `_FillValue`, holding 65535, under a float32 parent
+with `_FillValue = 100`: `apply_masking` masks the 65535 (and not the 100), as the read does. -/
+example :
+    ConOK true ⟨⟨⟨.float, 32⟩, { fillValue := some (.vals (.num 100) []) }, [.num 1, .num 100]⟩,
+        some ⟨⟨.uint, 16⟩, {}, [.num 0, .num 65535, .num 100, .num 3]⟩⟩ = true
+    ∧ conApplyMasking (readCon false true ⟨⟨⟨.float, 32⟩, { fillValue := some (.vals (.num 100) []) }, [.num 1, .num 100]⟩,
+        some ⟨⟨.uint, 16⟩, {}, [.num 0, .num 65535, .num 100, .num 3]⟩⟩)
+      = .ok { props := { fillValue := some (.vals (.num 100) []) }, data := [some (.num 1), none],
+              bprops := some { fillValue := some (.vals (.num 65535) []) },
+              bdata := some [some (.num 0), none, some (.num 100), some (.num 3)] } := by decide
+
+/-- The bookkeeping cannot be dropped: were the default NOT recorded on the bounds (their
+properties as after a masked read), `apply_masking` would use the parent's `_FillValue`
+and leave the bounds' never-written elements unmasked. -/
+theorem C07_bounds_default_fill_needed :
+    boundsApplyMasking (propsAfterRead true ⟨⟨.uint, 16⟩, {}, []⟩)
+        (readerProps ⟨.float, 32⟩ { fillValue := some (.vals (.num 100) []) })
+        (read ⟨.uint, 16⟩ {} false true [.num 0, .num 65535, .num 100]).elems
+      = .ok [some (.num 0), some (.num 65535), none]
+    ∧ (read ⟨.uint, 16⟩ {} true true [.num 0, .num 65535, .num 100]).elems
+      = [some (.num 0), none, some (.num 100)] := by decide
+
+/-! ## 6. Witnesses: earlier / unpatched code, and the excluded points -/
+
+/-- `Data.apply_masking` before f62b33c (`array == fill_value`): a NaN `_FillValue` masks
 nothing, while the read masks the NaN element. -/
 theorem C07_old_nan_counterexample :
     propsApplyMaskingOld (readerProps ⟨.float, 32⟩ { fillValue := some (.vals .nan []) })
@@ -207,7 +261,7 @@ theorem C07_old_nan_counterexample :
     ∧ (read ⟨.float, 32⟩ { fillValue := some (.vals .nan []) } true true [.nan, .num 1]).elems
       = [none, some (.num 1)] := by decide
 
-/-- Repository `Field.apply_masking(inplace=False)`: the receiver's coordinate is masked,
+/-- `Field.apply_masking(inplace=False)` before ebd1f5d: the receiver's coordinate is masked,
 the returned copy's is not. -/
 theorem C07_old_field_copy_counterexample :
     fieldApplyMaskingOld false
@@ -224,14 +278,14 @@ theorem C07_old_field_copy_counterexample :
                       data := [some (.num 10), some (.num 20)], bprops := none, bdata := none }] }) := by
   decide
 
-/-- Repository `__getitem__`: `_Unsigned` re-views data of any type (here float32), the
+/-- `__getitem__` before f8e6b8c: `_Unsigned` re-views data of any type (here float32), the
 reference only signed integers. -/
 theorem C07_old_unsigned_counterexample :
     unsignedViewOld ⟨.float, 32⟩ { unsigned := some "true" } true = true
     ∧ refUnsigned ⟨.float, 32⟩ { unsigned := some "true" } true = false := by decide
 
-/-- Repository reader with `mask=False`: a string variable cannot be read at all, while the
-patched reader records the 'S1' default fill value (NUL, i.e. the empty string). -/
+/-- The reader with `mask=False` before 32b9e20: a string variable cannot be read at all;
+since then the reader records the 'S1' default fill value (NUL, i.e. the empty string). -/
 theorem C07_old_string_default_fill_counterexample :
     readerPropsOld ⟨.vstr, 8⟩ {} = .error "AttributeError"
     ∧ (readerProps ⟨.vstr, 8⟩ {}).fillValue = some (.vals (.num 0) []) := by decide
@@ -257,6 +311,26 @@ theorem C07_vlen_counterexample :
   intro h
   simp [maskedBy, DType.isVlen] at h
 
+/-- /repo HEAD without fixes/C07-apply-masking-vector-missing-value.patch: a vector
+`missing_value` is handed to `Data.apply_masking` as ONE fill value; `array == vector`
+raises (shapes differ) or, when the lengths happen to agree, compares position by
+position - the read masks every listed value wherever it occurs. -/
+theorem C07_old_vector_missing_value_counterexample :
+    (propsApplyMaskingVecOld (readerProps ⟨.int, 8⟩ { missingValue := some (.vals (.num 1) [.num 2]) })
+        (read ⟨.int, 8⟩ { missingValue := some (.vals (.num 1) [.num 2]) } false false [.num 1, .num 2, .num 3]).elems
+          = .error "ValueError"
+      ∧ (read ⟨.int, 8⟩ { missingValue := some (.vals (.num 1) [.num 2]) } true false [.num 1, .num 2, .num 3]).elems
+          = [none, none, some (.num 3)])
+    ∧ (propsApplyMaskingVecOld (readerProps ⟨.int, 8⟩ { missingValue := some (.vals (.num 1) [.num 2]) })
+        (read ⟨.int, 8⟩ { missingValue := some (.vals (.num 1) [.num 2]) } false false [.num 2, .num 1]).elems
+          = .ok [some (.num 2), some (.num 1)]
+      ∧ (read ⟨.int, 8⟩ { missingValue := some (.vals (.num 1) [.num 2]) } true false [.num 2, .num 1]).elems
+          = [none, none])
+    ∧ propsApplyMasking (readerProps ⟨.int, 8⟩ { missingValue := some (.vals (.num 1) [.num 2]) })
+        (read ⟨.int, 8⟩ { missingValue := some (.vals (.num 1) [.num 2]) } false false [.num 2, .num 1]).elems
+          = .ok [none, none] := by
+  decide
+
 /-- Excluded by `ApplyOK`: each line is a concrete variable on which `apply_masking` after
 the raw read differs from the masked read (left: `apply_masking`, right: masked read). -/
 theorem C07_apply_masking_excluded_points :
@@ -264,12 +338,6 @@ theorem C07_apply_masking_excluded_points :
     (propsApplyMasking (readerProps ⟨.int, 8⟩ { validMin := some (.vals (.num 300) []) })
         (read ⟨.int, 8⟩ { validMin := some (.vals (.num 300) []) } false false [.num 1]).elems = .ok [none]
       ∧ (read ⟨.int, 8⟩ { validMin := some (.vals (.num 300) []) } true false [.num 1]).elems = [some (.num 1)])
-    -- vector missing_value
-    ∧ (propsApplyMasking (readerProps ⟨.int, 8⟩ { missingValue := some (.vals (.num 1) [.num 2]) })
-        (read ⟨.int, 8⟩ { missingValue := some (.vals (.num 1) [.num 2]) } false false [.num 1, .num 2, .num 3]).elems
-          = .error "ValueError"
-      ∧ (read ⟨.int, 8⟩ { missingValue := some (.vals (.num 1) [.num 2]) } true false [.num 1, .num 2, .num 3]).elems
-          = [none, none, some (.num 3)])
     -- valid_range together with valid_min
     ∧ (propsApplyMasking (readerProps ⟨.int, 8⟩ { validRange := some (.vals (.num 2) [.num 3]), validMin := some (.vals (.num 0) []) })
         (read ⟨.int, 8⟩ { validRange := some (.vals (.num 2) [.num 3]), validMin := some (.vals (.num 0) []) } false false [.num 1]).elems
@@ -292,6 +360,276 @@ theorem C07_apply_masking_excluded_points :
     ∧ (boundsApplyMasking (readerProps ⟨.float, 64⟩ {}) (readerProps ⟨.float, 64⟩ { validMin := some (.vals (.num 15) []) })
         (read ⟨.float, 64⟩ {} false true [.num 5, .num 15]).elems = .ok [none, some (.num 15)]
       ∧ (read ⟨.float, 64⟩ {} true true [.num 5, .num 15]).elems = [some (.num 5), some (.num 15)]) := by
+  decide
+
+/-! ## 7. The data type of unpacked data
+
+Full-strength statement (the property's "data type that a read presents"):
+
+    ∀ construct p unpackOn t,  advertised = delivered = reference
+
+where `advertised` is `Data.dtype` before any data are fetched, `delivered` the data type
+of the array that `netcdf_indexer` returns and `reference` what netCDF4-python returns.
+`advertised = delivered` holds for the reader after fixes/C07-unpacked-dtype.patch
+(`C07_dtype_advertised_eq_delivered`) and is FALSE at /repo HEAD
+(`C07_dtype_old_counterexamples`: every packed metadata construct, `_Unsigned`, neutral
+attributes, and - promotion not being associative - some mixed attribute types).
+`delivered = reference` is FALSE for a single neutral attribute (deliberate in cfdm, known
+finding) and holds otherwise (`C07_dtype_reference_partial`). -/
+
+section DType
+open Cfdm.MaskDType
+
+/-- numpy's promotion rule is the least safe common upper bound: both operands cast
+safely to `promote a b`, and no lower-ranked type takes both. -/
+theorem C07_promote_is_least_safe_upper_bound (a b : NT) : IsPromotion a b (promote a b) := by
+  refine ⟨?_, ?_, ?_⟩
+  · cases a <;> cases b <;> decide
+  · cases a <;> cases b <;> decide
+  · intro c'
+    cases a <;> cases b <;> cases c' <;> decide
+
+/-- ... and it is the only such type. -/
+theorem C07_promote_unique (a b c : NT) (h : IsPromotion a b c) : c = promote a b := by
+  obtain ⟨h1, h2, h3⟩ := h
+  obtain ⟨g1, g2, g3⟩ := C07_promote_is_least_safe_upper_bound a b
+  have le1 := h3 _ g1 g2
+  have le2 := g3 _ h1 h2
+  have : c.rank = (promote a b).rank := Nat.le_antisymm le1 le2
+  revert this
+  cases c <;> cases (promote a b) <;> decide
+
+example : IsPromotion .u2 .i2 .i4 ∧ IsPromotion .i4 .f4 .f8 ∧ IsPromotion .u8 .i1 .f8 :=
+  ⟨C07_promote_is_least_safe_upper_bound .u2 .i2, C07_promote_is_least_safe_upper_bound .i4 .f4,
+   C07_promote_is_least_safe_upper_bound .u8 .i1⟩
+
+theorem C07_promote_comm (a b : NT) : promote a b = promote b a := by
+  cases a <;> cases b <;> rfl
+
+theorem C07_promote_idem (a : NT) : promote a a = a := by
+  cases a <;> rfl
+
+/-- Promotion is NOT associative: the order in which `data`, `scale_factor` and
+`add_offset` meet matters (this is why the reader must fold in the order of the
+arithmetic, and why `np.result_type(dtype, np.result_type(add_offset, scale_factor))`
+of /repo HEAD is not the delivered type). -/
+theorem C07_promote_not_associative :
+    promote (promote .u2 .i2) .f4 = .f8 ∧ promote .u2 (promote .i2 .f4) = .f4 := by decide
+
+/-- The rule-based tables are those of the installed numpy, for all 100 pairs
+(Cfdm/Generated/NumpyPromotion.lean is regenerated from numpy on every run). -/
+theorem C07_promote_matches_numpy (a b : NT) :
+    (a.name, b.name, (promote a b).name) ∈ Cfdm.Generated.NumpyPromotion.resultType := by
+  cases a <;> cases b <;> decide
+
+theorem C07_canCast_matches_numpy (a b : NT) :
+    (a.name, b.name, canCast a b) ∈ Cfdm.Generated.NumpyPromotion.canCastSafe := by
+  cases a <;> cases b <;> decide
+
+/-- The data type the (patched) reader advertises for a construct before fetching its data
+is the data type `netcdf_indexer` delivers - for every numeric type, every presence /
+type / neutrality combination of `scale_factor` and `add_offset` (text included), with
+or without `_Unsigned`, unpacking on or off. -/
+theorem C07_dtype_advertised_eq_delivered (p : Pack) (unpackOn : Bool) (t : NT) :
+    advertisedT p unpackOn t = deliveredT p unpackOn t := by
+  obtain ⟨sf, ao, uns⟩ := p
+  cases unpackOn
+  · rfl
+  · cases sf <;> cases ao <;> simp [advertisedT, deliveredT, unpackT, collect]
+    all_goals (try split) <;> simp_all
+
+example : advertisedT { sf := .num .f4 false, ao := .num .f8 false } true .i2 = .f8
+    ∧ deliveredT { sf := .num .f4 false, ao := .num .f8 false } true .i2 = .f8
+    ∧ advertisedT { sf := .num .f4 true, ao := .num .f8 true } true .f8 = .f4
+    ∧ advertisedT { sf := .text, ao := .num .f8 false, uns := true } true .i1 = .u1 := by decide
+
+/-- With unpacking off nothing changes the type (whatever the attributes are). -/
+theorem C07_dtype_unpack_off (p : Pack) (t : NT) :
+    deliveredT p false t = t ∧ advertisedT p false t = t ∧ refT p false t = t := ⟨rfl, rfl, rfl⟩
+
+theorem canCast_refl (a : NT) : canCast a a = true := by cases a <;> rfl
+
+theorem canCast_trans (a b c : NT) (h1 : canCast a b = true) (h2 : canCast b c = true) :
+    canCast a c = true := by
+  revert h1 h2
+  cases a <;> cases b <;> cases c <;> decide
+
+/-- Unpacking arithmetic never narrows: when an attribute takes part in the arithmetic
+(i.e. not the all-neutral `astype` short cut), the delivered type holds every value of the
+(re-viewed) stored type and of each numeric attribute's type. -/
+theorem C07_dtype_unpack_no_narrowing (t : NT) (uns : Bool) (sf ao : AttrT)
+    (hn : ¬ (∀ x ∈ [sf, ao], ∀ ty n, x = .num ty n → n = true))
+    (htext : sf ≠ .text ∧ ao ≠ .text) :
+    canCast (viewT uns t) (deliveredT ⟨sf, ao, uns⟩ true t) = true
+    ∧ (∀ ty n, sf = .num ty n → canCast ty (deliveredT ⟨sf, ao, uns⟩ true t) = true)
+    ∧ (∀ ty n, ao = .num ty n → canCast ty (deliveredT ⟨sf, ao, uns⟩ true t) = true) := by
+  have up := fun a b => (C07_promote_is_least_safe_upper_bound a b)
+  cases sf with
+  | text => exact absurd rfl htext.1
+  | absent =>
+    cases ao with
+    | text => exact absurd rfl htext.2
+    | absent => exact absurd (by simp) hn
+    | num o no =>
+      cases no with
+      | true => exact absurd (by simp) hn
+      | false =>
+        simp only [deliveredT, unpackT, if_true, Bool.false_eq_true, if_false]
+        refine ⟨?_, ?_, ?_⟩
+        · exact (up _ _).1
+        · intro _ _ h; cases h
+        · intro ty n h; cases h; exact (up _ _).2.1
+  | num s ns =>
+    cases ao with
+    | text => exact absurd rfl htext.2
+    | absent =>
+      cases ns with
+      | true => exact absurd (by simp) hn
+      | false =>
+        simp only [deliveredT, unpackT, if_true, Bool.false_eq_true, if_false]
+        refine ⟨?_, ?_, ?_⟩
+        · exact (up _ _).1
+        · intro ty n h; cases h; exact (up _ _).2.1
+        · intro _ _ h; cases h
+    | num o no =>
+      have hnn : (ns && no) = false := by
+        cases ns <;> cases no <;> simp_all
+      simp only [deliveredT, unpackT, if_true, hnn, Bool.false_eq_true, if_false]
+      refine ⟨?_, ?_, ?_⟩
+      · exact canCast_trans _ _ _ (up _ _).1 (up _ _).1
+      · intro ty n h; cases h; exact canCast_trans _ _ _ (up _ _).2.1 (up _ _).1
+      · intro ty n h; cases h; exact (up _ _).2.1
+
+example : ¬ (∀ x ∈ [AttrT.num .f4 false, AttrT.absent], ∀ ty n, x = .num ty n → n = true) := by
+  intro h
+  have := h (.num .f4 false) (by simp) .f4 false rfl
+  cases this
+
+/-- The all-neutral short cut CAN narrow (float64 data, `scale_factor = float32(1)`,
+`add_offset = float32(0)`: float32) - in cfdm and in the reference alike. -/
+theorem C07_dtype_neutral_narrows :
+    deliveredT { sf := .num .f4 true, ao := .num .f4 true } true .f8 = .f4
+    ∧ refT { sf := .num .f4 true, ao := .num .f4 true } true .f8 = .f4
+    ∧ canCast .f8 .f4 = false := by decide
+
+/-- cfdm delivers the data type the reference library delivers, except for a single
+neutral attribute. -/
+theorem C07_dtype_reference_partial (p : Pack) (unpackOn : Bool) (t : NT)
+    (h : trivialSingle p = false) : deliveredT p unpackOn t = refT p unpackOn t := by
+  obtain ⟨sf, ao, uns⟩ := p
+  cases unpackOn
+  · rfl
+  · rcases sf with _ | _ | ⟨s, _ | _⟩ <;> rcases ao with _ | _ | ⟨o, _ | _⟩ <;>
+      simp_all [deliveredT, refT, unpackT, trivialSingle]
+
+example : trivialSingle { sf := .num .f4 false, ao := .num .f8 true } = false := by decide
+
+/-- Excluded by `trivialSingle`: uint64 data with only `scale_factor = float32(1)`: cfdm
+casts to float32 (losing precision), the reference leaves uint64. -/
+theorem C07_dtype_trivial_single_counterexample :
+    deliveredT { sf := .num .f4 true } true .u8 = .f4 ∧ refT { sf := .num .f4 true } true .u8 = .u8 := by
+  decide
+
+/-- /repo HEAD (without fixes/C07-unpacked-dtype.patch): `Data.dtype` before fetching differs
+from the data type of the fetched array for (1) any packed metadata construct, (2) an
+`_Unsigned` variable, (3) neutral attributes, (4) attribute types on which promotion is
+not associative; and (5) a text attribute makes the read of the field fail. -/
+theorem C07_dtype_old_counterexamples :
+    -- (1) an int16 coordinate with scale_factor float32
+    (advertisedOldT false { sf := .num .f4 false } true .i2 = .ok .i2
+      ∧ deliveredT { sf := .num .f4 false } true .i2 = .f4)
+    -- (2) an int8 field with _Unsigned
+    ∧ (advertisedOldT true { uns := true } true .i1 = .ok .i1 ∧ deliveredT { uns := true } true .i1 = .u1)
+    -- (3) int8 field, scale_factor int8(1), add_offset int16(0)
+    ∧ (advertisedOldT true { sf := .num .i1 true, ao := .num .i2 true } true .i1 = .ok .i2
+      ∧ deliveredT { sf := .num .i1 true, ao := .num .i2 true } true .i1 = .i1)
+    -- (4) uint16 field, scale_factor int16, add_offset float32
+    ∧ (advertisedOldT true { sf := .num .i2 false, ao := .num .f4 false } true .u2 = .ok .f4
+      ∧ deliveredT { sf := .num .i2 false, ao := .num .f4 false } true .u2 = .f8)
+    -- (5) text scale_factor on the field: TypeError, although nothing would be unpacked
+    ∧ (advertisedOldT true { sf := .text } false .i2 = .error "TypeError"
+      ∧ deliveredT { sf := .text } true .i2 = .i2) := by decide
+
+/-- Why `_unpack` evaluates ONE expression: adding the offset in place keeps the product's
+type (float32 instead of float64 for int16 data, float32 scale, float64 offset) or fails. -/
+theorem C07_dtype_inplace_counterexample :
+    unpackInPlaceT { sf := .num .f4 false, ao := .num .f8 false } .i2 = .ok .f4
+    ∧ unpackT { sf := .num .f4 false, ao := .num .f8 false } .i2 = .f8
+    ∧ unpackInPlaceT { sf := .num .i2 false, ao := .num .f4 false } .i2 = .error "TypeError" := by decide
+
+end DType
+
+/-! ## 8. `Data.apply_masking` called directly
+
+The construct and field wrappers of section 5 always hand over a non-empty list of scalar
+fill values and unmasked data.  Called directly, `Data.apply_masking` also takes
+`fill_values=None/True/False`, data that already hold masked elements, and checks its
+arguments.  For scalar criteria it is an elementwise map given by `specApplyElem`. -/
+
+/-- Without `valid_range`: every element of the result is `specApplyElem` of the element -
+for any way of passing the fill values (`hres`: `None`, `False`, `True` = the data's own
+fill value if any, or a sequence), any data, masked elements included. -/
+theorem C07_data_apply_masking_elementwise (dataFill : Attr) (arg : FillArg) (fills : List V)
+    (vmin vmax : Option V) (arr : List (Option V))
+    (hres : resolveFills dataFill arg = .ok (fills.map scalarAttr)) :
+    dataApplyMasking dataFill arg (vmin.map scalarAttr) (vmax.map scalarAttr) none arr
+      = .ok (arr.map (specApplyElem fills vmin vmax)) := by
+  have hs : splitRange (vmin.map scalarAttr) (vmax.map scalarAttr) none
+      = .ok (vmin.map scalarAttr, vmax.map scalarAttr) := rfl
+  simp only [dataApplyMasking, hs, hres, dataApplyCore_elementwise, Except.ok.injEq]
+  apply List.map_congr_left
+  intro o _
+  exact critB_spec fills vmin vmax o
+
+/-- With a two-element `valid_range` (and, as the method demands, neither `valid_min` nor
+`valid_max`): the same, the range giving both bounds. -/
+theorem C07_data_apply_masking_range (dataFill : Attr) (arg : FillArg) (fills : List V)
+    (lo hi : V) (arr : List (Option V))
+    (hres : resolveFills dataFill arg = .ok (fills.map scalarAttr)) :
+    dataApplyMasking dataFill arg none none (some (.vals lo [hi])) arr
+      = .ok (arr.map (specApplyElem fills (some lo) (some hi))) := by
+  have hs : splitRange none none (some (.vals lo [hi])) = .ok (some (scalarAttr lo), some (scalarAttr hi)) := rfl
+  have := dataApplyCore_elementwise fills (some lo) (some hi) arr
+  simp only [Option.map_some] at this
+  simp only [dataApplyMasking, hs, hres, this, Except.ok.injEq]
+  apply List.map_congr_left
+  intro o _
+  exact critB_spec fills (some lo) (some hi) o
+
+/-- non-vacuity: `fill_values=True` uses the data's fill value; a masked element stays masked -/
+example : resolveFills (some (scalarAttr (.num 7))) (.flag true) = .ok ([V.num 7].map scalarAttr)
+    ∧ dataApplyMasking (some (scalarAttr (.num 7))) (.flag true) (some (scalarAttr (.num 2))) none none
+        [some (.num 7), none, some (.num 1), some (.num 3), some .nan]
+      = .ok [none, none, none, some (.num 3), some .nan] := by decide
+
+example : dataApplyMasking none (.seq [scalarAttr .nan]) none none (some (.vals (.num 2) [.num 8]))
+        [some .nan, some (.num 1), some (.num 5), some (.num 9)] = .ok [none, none, some (.num 5), none] := by decide
+
+/-- The argument checks: `valid_range` with `valid_min`/`valid_max`, or not of two elements,
+is a ValueError - and that check comes before the `fill_values` one (TypeError for
+something that is not a sequence). -/
+theorem C07_data_apply_masking_argument_errors (dataFill : Attr) (arg : FillArg) (vmin vmax : Attr)
+    (vr : AttrVal) (arr : List (Option V)) :
+    ((vmin.isSome || vmax.isSome) = true → dataApplyMasking dataFill arg vmin vmax (some vr) arr = .error "ValueError")
+    ∧ ((∀ lo hi, vr ≠ .vals lo [hi]) → dataApplyMasking dataFill arg vmin vmax (some vr) arr = .error "ValueError")
+    ∧ dataApplyMasking dataFill .notSeq vmin vmax none arr = .error "TypeError" := by
+  refine ⟨?_, ?_, ?_⟩
+  · intro h
+    simp [dataApplyMasking, splitRange, h]
+  · intro h
+    have hs : splitRange vmin vmax (some vr) = .error "ValueError" := by
+      simp only [splitRange]
+      split
+      · rfl
+      · rcases vr with ⟨lo, _ | ⟨hi, _ | _⟩⟩ | _
+        · rfl
+        · exact absurd rfl (h lo hi)
+        · rfl
+        · rfl
+    simp [dataApplyMasking, hs]
+  · simp [dataApplyMasking, splitRange, resolveFills]
+
+example : dataApplyMasking none .notSeq none none (some (.vals (.num 1) [])) [some (.num 1)] = .error "ValueError" := by
   decide
 
 end Cfdm.Props.C07
